@@ -384,7 +384,7 @@ fn arb_unlink_id() -> BoxedStrategy<Value> {
     .boxed()
 }
 
-fn grid_strategy() -> impl Strategy<Value = TupleCase> {
+pub fn grid_strategy() -> impl Strategy<Value = TupleCase> {
     let elem = || arb_value(GenCfg { depth: 2, size: 6, heavy: false, ..GenCfg::std() });
     let tagged = (0u8..=255, 0usize..=9, prop::collection::vec(elem(), 9), arb_unlink_id(), arb_choices(12)).prop_map(|(tag, k, els, uid, repr)| {
         let mut v = vec![Value::int(tag as i128)];
